@@ -881,6 +881,80 @@ class C06(core.Check):
                 return c
         raise RuntimeError('generator cannot find a valid case')
 
+    def extra(self):
+        """HEAD against GET under the method dispatcher, for resources whose framing is decided by the GET method's own
+        _cp_config (a Content-Type set through response.headers, tools.gzip, tools.json_out, tools.encode with a
+        charset): HEAD has no method of its own and falls back to GET, so status, Content-Type, Content-Encoding and
+        Content-Length must be those of the GET, with no body bytes.  Oracle only."""
+        import cherrypy
+        text = 'payload ' * 400
+
+        class Typed:
+            exposed = True
+
+            @cherrypy.config(**{'response.headers.Content-Type': 'application/xml'})
+            def GET(self):
+                return b'<a>' + b'x' * 100 + b'</a>'
+
+        class Zipped:
+            exposed = True
+
+            @cherrypy.config(**{'tools.gzip.on': True, 'tools.gzip.mime_types': ['text/*']})
+            def GET(self):
+                cherrypy.response.headers['Content-Type'] = 'text/plain'
+                return text.encode()
+
+        class Jsoned:
+            exposed = True
+
+            @cherrypy.config(**{'tools.json_out.on': True})
+            def GET(self):
+                return {'k': list(range(30))}
+
+        class Encoded:
+            exposed = True
+
+            @cherrypy.config(**{'tools.encode.on': True, 'tools.encode.encoding': 'utf-16'})
+            def GET(self):
+                return u'caf\xe9 ' * 50
+
+        class Root:
+            pass
+        root = Root()
+        root.typed, root.zipped, root.jsoned, root.encoded = Typed(), Zipped(), Jsoned(), Encoded()
+        app = wsgi.make_app(root, {'/': {'request.dispatch': cherrypy.dispatch.MethodDispatcher(),
+                                         'tools.trailing_slash.on': False, 'request.show_tracebacks': False}})
+        out = []
+        try:
+            for path in ('/typed', '/zipped', '/jsoned', '/encoded'):
+                for hdrs in ([], [('Accept-Encoding', 'gzip')]):
+                    g = wsgi.call(app, 'GET', path, hdrs)
+                    h = wsgi.call(app, 'HEAD', path, hdrs)
+                    self.count('method-dispatcher HEAD/GET pairs')
+                    view = lambda r: [r['status'], wsgi.header(r, 'Content-Type'), wsgi.header(r, 'Content-Encoding'),
+                                      wsgi.headers_all(r, 'Content-Length')]
+                    gv, hv = view(g), view(h)
+                    if g['escaped'] or h['escaped'] or g['problems'] or h['problems']:
+                        continue
+                    if hv != gv or len(h['body']) != 0 or gv[3] != [str(len(g['body']))]:
+                        out.append(core.Violation(
+                            'head-differs:method-dispatcher',
+                            'MethodDispatcher, GET method with its own _cp_config: GET %s -> (status, Content-Type, '
+                            'Content-Encoding, Content-Length) %r with %d body bytes; HEAD -> %r with %d body bytes'
+                            % (path, gv, len(g['body']), hv, len(h['body'])),
+                            case={'k': 'method-dispatcher-head', 'path': path, 'headers': hdrs},
+                            observed={'get': gv, 'head': hv, 'get_bytes': len(g['body']), 'head_bytes': len(h['body'])}))
+                        return out
+        finally:
+            import logging
+            try:
+                cherrypy.engine.unsubscribe('graceful', app.log.reopen_files)
+            except Exception:
+                pass
+            for lg in (app.log.error_log, app.log.access_log):
+                logging.Logger.manager.loggerDict.pop(lg.name, None)
+        return out
+
     def cases(self):
         rng = self.rng
         n = 3000 if self.tier == 'quick' else 12000
